@@ -39,14 +39,23 @@ type solveCfg struct {
 
 // queryText builds the SMT-LIB text for one obligation.
 func (db *ContractDB) queryText(vc *VC, ob *Obligation, wantModel bool) string {
+	return db.queryTextG(vc, ob, wantModel, ob.Kind == "vacuity")
+}
+
+// queryTextG: ground=true drops every quantified axiom (prelude and facts).
+func (db *ContractDB) queryTextG(vc *VC, ob *Obligation, wantModel bool, ground bool) string {
 	var b strings.Builder
 	b.WriteString("; obligation " + ob.Name + "\n; " + ob.Desc + "\n")
 	if wantModel {
 		b.WriteString("(set-option :produce-models true)\n")
 	}
-	b.WriteString("(set-logic ALL)\n")
+	b.WriteString("(set-logic ALL)\n(declare-sort V 0)\n")
+	for _, l := range vc.strLitDecls() {
+		b.WriteString(l)
+		b.WriteString("\n")
+	}
 	for _, p := range db.Prelude {
-		if ob.Kind == "vacuity" {
+		if ground {
 			// cover queries must be answered "sat": keep declarations and ground
 			// facts only, so the solver is not asked to build a model of the
 			// quantified axioms (which it cannot do in general)
@@ -75,7 +84,7 @@ func (db *ContractDB) queryText(vc *VC, ob *Obligation, wantModel bool) string {
 		n = len(vc.facts)
 	}
 	for _, f := range vc.facts[:n] {
-		if ob.Kind == "vacuity" && strings.HasPrefix(f, "(forall") {
+		if ground && strings.HasPrefix(f, "(forall") {
 			continue
 		}
 		b.WriteString("(assert ")
@@ -127,6 +136,13 @@ func (db *ContractDB) discharge(vc *VC, ob *Obligation, cfg *solveCfg) {
 	agree := 0
 	for i, s := range solvers {
 		t := cfg.timeoutS
+		if ob.Known {
+			// recorded finding: one solver, short budget (it is expected not to discharge)
+			if i > 0 {
+				break
+			}
+			t = 4
+		}
 		if i > 0 && !cfg.allSolv {
 			// later solvers are only consulted when the first was indefinite
 		}
@@ -158,6 +174,18 @@ func (db *ContractDB) discharge(vc *VC, ob *Obligation, cfg *solveCfg) {
 		}
 	}
 	ob.TimeS = total
+	if ob.Expect == "unsat" && (ob.Status == "unknown" || ob.Status == "timeout") {
+		// no definite answer with the quantified axioms: ask for a model of the
+		// ground part (a candidate counterexample; it is replayed on the real
+		// code before it is called reproduced)
+		gfile := filepath.Join(cfg.dir, sanitizeFile(ob.Name)+".ground.smt2")
+		_ = os.WriteFile(gfile, []byte(db.queryTextG(vc, ob, true, true)), 0o644)
+		st, out, _ := runSolver(solvers[0], gfile, cfg.timeoutS, cfg.seed)
+		if st == "sat" {
+			ob.Model = "; candidate model of the quantifier-free part of the query (status with axioms: " + ob.Status + ")\n" + out
+			ob.Approx = true
+		}
+	}
 	if ob.Status == "sat" && ob.Expect == "unsat" {
 		// fetch a model
 		mfile := filepath.Join(cfg.dir, sanitizeFile(ob.Name)+".model.smt2")
